@@ -49,6 +49,13 @@ def make_cases(tier, rng):
     for pair in ["inproc", "process"]:
         ests = [dict(g.est(rng, d, rng.choice(["accept_first", "dial_first"]), gap=rng.choice([0, 50])), id=id_) for d in ["h2p", "p2h"] for id_ in [0, 4294967295]]
         add(pair, ests + [g.est(rng)], "extreme-ids")
+    # a dial that found nobody (gives up after 5 s), then the accept for that id, then the dial again 300 ms later:
+    # the second dial is well inside the window of the accept and has to succeed
+    for pair in ["inproc", "process"]:
+        for d in ["h2p", "p2h"]:
+            e1 = g.est(rng, d, nopeer="dial_only")
+            e2 = dict(g.est(rng, d, "accept_first", gap=300, start=5400), id=e1["id"])
+            add(pair, [e1, e2, g.est(rng, d, gap=0, start=6000)], "redial")
     # unmatched peers followed by fresh pairs (the gRPC half of C09)
     for _ in range(1 if tier == "quick" else 6):
         ests = [g.est(rng, nopeer="dial_only"), g.est(rng, nopeer="accept_only"), g.est(rng, start=200), g.est(rng, start=5600)]
